@@ -52,7 +52,10 @@ def _shipped(rel):
 
 
 def _js(x, n=300):
-    s = json.dumps(x, sort_keys=True, default=repr)
+    try:
+        s = json.dumps(x, sort_keys=True, default=repr)
+    except (TypeError, ValueError):          # non-string / mixed keys
+        s = repr(x)
     return s if len(s) <= n else s[:n] + "…"
 
 
@@ -94,14 +97,13 @@ class _Pair:
     @property
     def size(self):
         if self._size is None:
-            self._size = len(json.dumps(self.u0, default=repr)) + \
-                (len(json.dumps(self.d0, default=repr)) if self.tag == "merge" else 0)
+            self._size = len(repr(self.u0)) + (len(repr(self.d0)) if self.tag.startswith("merge") else 0)
         return self._size
 
     @property
     def txt(self):
         if self._txt is None:
-            self._txt = f"user={_js(self.u0)} default={_js(self.d0) if self.tag == 'merge' else '<packaged defaults>'}"
+            self._txt = f"user={_js(self.u0)} default={_js(self.d0) if self.tag.startswith('merge') else '<packaged defaults>'}"
         return self._txt
 
 
@@ -164,11 +166,9 @@ def _has_falsy_leaf(x):
     return any(not v for v in R.flatten(x)[0].values())
 
 
-def _run_merge(case):
+def _merge_loop(u0, space, tag, viol, counts):
+    """update_config(u0, d) for every d of `space` (list of (dict, flattened)) + the oracle."""
     from cij.io.config import update_config
-    u0 = case["user"]
-    space = _space(case.get("ddepth", 2), case.get("dleaves", [1, 2]))
-    viol, counts = _Viol(), Counter()
     u = R.clone(u0)
     if _has_falsy_leaf(u0):
         counts["users_with_null_or_falsy_leaf"] += 1
@@ -180,21 +180,56 @@ def _run_merge(case):
         if not ukeys.isdisjoint(d0):
             counts["pairs_sharing_a_key"] += 1
         expected = R.unflatten(R.merge_leaves(ul, dl))
-        r = _check_merge(update_config, u, u0, d, d0, viol, counts, "merge", expected)
+        r = _check_merge(update_config, u, u0, d, d0, viol, counts, tag, expected)
         if not R.same(u, u0):
             u = R.clone(u0)
         if not R.same(d, d0):
             d = R.clone(d0)
         if r is not None:
-            P = _Pair(u0, d0, "merge")
-            _check_idempotent(update_config, r, d, d0, viol, counts, "merge", P)
+            P = _Pair(u0, d0, tag)
+            _check_idempotent(update_config, r, d, d0, viol, counts, tag, P)
             if not R.same(u, u0):     # r may alias sub-dicts of u
-                viol.add("c16:merge:mutates-user:on-remerge", f"{P.txt}: user now {_js(u)}", P.size)
+                viol.add(f"c16:{tag}:mutates-user:on-remerge", f"{P.txt}: user now {_js(u)}", P.size)
                 u = R.clone(u0)
+
+
+def _run_merge(case):
+    u0 = case["user"]
+    space = _space(case.get("ddepth", 2), case.get("dleaves", [1, 2]))
+    viol, counts = _Viol(), Counter()
+    _merge_loop(u0, space, "merge", viol, counts)
     v = viol.out()
     outcome = "merge:" + ("ok" if not v else "+".join(sorted({x["sig"].split(":")[2] for x in v})))
     return {"viol": v, "nontrivial": bool(u0), "outcome": outcome, "counts": dict(counts),
             "key": "merge:" + json.dumps(u0, sort_keys=True) + "/" + json.dumps(case.get("dleaves", [1, 2]))}
+
+
+def _named_space(depth, keys, leaves):
+    key = ("named", depth, tuple(keys), tuple(leaves))
+    if key not in _CACHE:
+        _CACHE[key] = [(d, R.flatten(d)) for d in R.named_space(depth, keys, leaves)]
+    return _CACHE[key]
+
+
+def _run_mergex(case):
+    """Small-scope merge over non-JSON-native leaves / non-string keys.  The case names its spaces; `ui` is the
+    index of the user dictionary in the (deterministic) enumeration of the user space."""
+    us = case["uspace"]
+    ds = case["dspace"]
+    U = _named_space(us["depth"], us["keys"], us["leaves"])
+    D = _named_space(ds["depth"], ds["keys"], ds["leaves"])
+    if not 0 <= case["ui"] < len(U):
+        raise HarnessError(f"user index {case['ui']} outside a space of {len(U)}")
+    u0 = U[case["ui"]][0]
+    if case.get("desc") not in (None, R.show(u0)):
+        raise HarnessError(f"case describes {case['desc']} but index {case['ui']} enumerates {R.show(u0)}")
+    tag = "mergex-" + case["sub"]
+    viol, counts = _Viol(), Counter()
+    _merge_loop(u0, D, tag, viol, counts)
+    v = viol.out()
+    outcome = tag + ":" + ("ok" if not v else "+".join(sorted({x["sig"].split(":")[2] for x in v})))
+    return {"viol": v, "nontrivial": bool(u0), "outcome": outcome, "counts": dict(counts),
+            "key": f"{tag}:{us}:{case['ui']}/{ds}"}
 
 
 # ------------------------------------------------------------------------------------------ apply oracle
@@ -219,7 +254,7 @@ def _variant_values(base, variant):
     return out
 
 
-def _check_apply_user(u0, viol, counts, extra_idem):
+def _check_apply_user(u0, viol, counts, extra_idem, tag="apply"):
     from cij.io.config import apply_default_config, update_config
     D0 = _defaults()
     u = R.clone(u0)
@@ -228,16 +263,16 @@ def _check_apply_user(u0, viol, counts, extra_idem):
         return apply_default_config(x)
 
     counts["inputs"] += 1
-    r = _check_merge(call, u, u0, D0, D0, viol, counts, "apply", R.ref_merge(u0, D0))
+    r = _check_merge(call, u, u0, D0, D0, viol, counts, tag, R.ref_merge(u0, D0))
     if r is None:
         return
-    P = _Pair(u0, D0, "apply")
+    P = _Pair(u0, D0, tag)
     d = R.clone(D0)
-    _check_idempotent(update_config, r, d, D0, viol, counts, "apply", P, " (update_config(result, defaults))")
+    _check_idempotent(update_config, r, d, D0, viol, counts, tag, P, " (update_config(result, defaults))")
     if extra_idem:
-        _check_idempotent(call, r, D0, D0, viol, counts, "apply", P, " (apply_default_config(result))")
+        _check_idempotent(call, r, D0, D0, viol, counts, tag, P, " (apply_default_config(result))")
     if not R.same(u, u0):
-        viol.add("c16:apply:mutates-user:on-remerge", f"{P.txt}: user now {_js(u)}", P.size)
+        viol.add(f"c16:{tag}:mutates-user:on-remerge", f"{P.txt}: user now {_js(u)}", P.size)
 
 
 def _masks_of(spec):
@@ -327,6 +362,89 @@ def _run_validate(case):
         shutil.rmtree(tmp, ignore_errors=True)
     return {"viol": viol, "nontrivial": expect != "unasserted", "outcome": f"{expect}:{verdict}",
             "key": f"val:{case['base']}:{pid}", "observed": verdict, "cls": cls}
+
+
+# ------------------------------------------------------------------------------------------ annotated files
+
+ANNOTATIONS = ["date", "timestamp", "int-keyed-block", "int-key", "scripted-tuple", "scripted-np-int", "scripted-np-float",
+               "scripted-date-in-list"]
+ANN_WHERE = {"<root>": (), "qha": ("qha",), "qha.settings": ("qha", "settings"), "output": ("output",)}
+# extra keys directly under `qha` are used by a shipped file (diopside: frequency) and `output` is documented as a
+# free-form object, so an annotated file must validate there; at the root / under qha.settings it is not asserted
+ANN_MUST_VALIDATE = {"qha", "output"}
+
+
+def _annotate(obj, ann, where):
+    """-> (object to write as YAML, function applied to the loaded configuration by the 'script')."""
+    import datetime
+    import numpy
+    lvl = ANN_WHERE[where]
+    ex = R.exotic_leaves()
+    if ann == "date":
+        return R.set_path_raw(obj, lvl + ("created",), ex["date"]), None
+    if ann == "timestamp":
+        return R.set_path_raw(obj, lvl + ("stamp",), ex["datetime"]), None
+    if ann == "int-keyed-block":
+        return R.set_path_raw(obj, lvl + ("notes",), {1: "first", 2: {3: "nested"}}), None
+    if ann == "int-key":
+        return R.set_path_raw(obj, lvl + (1,), "first"), None
+    scripted = {"scripted-tuple": ("cij", "vs"), "scripted-np-int": numpy.int64(31), "scripted-np-float": numpy.float64(50.0),
+                "scripted-date-in-list": ["cij", datetime.date(2024, 5, 1)]}[ann]
+    target = {"<root>": ("scripted",), "qha": ("qha", "scripted"), "qha.settings": ("qha", "settings", "NT" if ann == "scripted-np-int" else "DT"),
+              "output": ("output", "pressure_base")}[where]
+    return R.clone(obj), (target, scripted)
+
+
+def _run_annotated(case):
+    """A shipped YAML file + one annotation, through read_config -> (script) -> apply_default_config."""
+    from cij.io.config import read_config, apply_default_config, update_config
+    import yaml
+    base = _shipped(case["file"])
+    ann, where = case["ann"], case["where"]
+    obj, script = _annotate(base, ann, where)
+    text = yaml.safe_dump(obj, sort_keys=False)
+    expected_loaded = yaml.safe_load(text)
+    if not R.same(expected_loaded, obj):
+        raise HarnessError(f"annotated object does not survive the trusted YAML round trip: {R.show(obj)}")
+    what = f"{case['file']} + {ann} at {where}"
+    viol = []
+    tmp = tempfile.mkdtemp(prefix="c16-ann-", dir="/dev/shm")
+    cfg, verdict = None, "accepted"
+    try:
+        fn = os.path.join(tmp, "settings.yaml")
+        with open(fn, "w") as fp:
+            fp.write(text)
+        try:
+            cfg = read_config(fn)
+        except Exception as e:
+            from jsonschema.exceptions import ValidationError
+            verdict = "rejected" if isinstance(e, ValidationError) else f"error:{type(e).__name__}"
+            if where in ANN_MUST_VALIDATE or not isinstance(e, ValidationError):
+                viol.append(V(f"c16:annotated:read-{verdict.split(':')[0]}:{ann}:{where}:{type(e).__name__}",
+                              f"{what}: read_config raised {type(e).__name__}: {str(e).splitlines()[0][:200]}"))
+            try:
+                cfg = read_config(fn, validate=False)
+            except Exception as e2:
+                viol.append(V(f"c16:annotated:read-raises:{ann}:{where}:{type(e2).__name__}",
+                              f"{what}: read_config(validate=False) raised {type(e2).__name__}: {e2}"))
+    finally:
+        shutil.rmtree(tmp, ignore_errors=True)
+    if cfg is None:
+        return {"viol": viol, "outcome": f"annotated:{verdict}:not-loaded", "key": f"ann:{case['file']}:{ann}:{where}"}
+    if not R.same(cfg, expected_loaded):
+        viol.append(V(f"c16:annotated:loaded-differs:{ann}:{where}", f"{what}: read_config gave {R.show(cfg)}, the YAML text "
+                      f"spells {R.show(expected_loaded)}"))
+        cfg = R.clone(expected_loaded)
+    if script:
+        cfg = R.set_path_raw(cfg, script[0], script[1])
+    u0 = R.clone(cfg)
+    agg, counts = _Viol(), Counter()
+    _check_apply_user(u0, agg, counts, True, tag="annotated")
+    for x in agg.out():
+        x["sig"] += f":{ann}:{where}"
+        viol.append(x)
+    return {"viol": viol, "outcome": f"annotated:{verdict}:" + ("ok" if not viol else "violation"),
+            "key": f"ann:{case['file']}:{ann}:{where}", "calls": counts["calls"] + 1}
 
 
 # ------------------------------------------------------------------------------------------ YAML vs JSON
@@ -503,6 +621,10 @@ def run_case(case):
     kind = case.get("kind")
     if kind == "merge":
         return _run_merge(case)
+    if kind == "mergex":
+        return _run_mergex(case)
+    if kind == "annotated":
+        return _run_annotated(case)
     if kind == "apply":
         return _run_apply(case)
     if kind == "validate":
@@ -658,6 +780,45 @@ def validate_cases():
     return [{"kind": "validate", "base": rel, "pert": p} for rel in R.SHIPPED_REL for p in perts], perts
 
 
+X_LEAVES_A = ["one", "tuple", "date", "np_int64", "nan", "object"]
+X_LEAVES_B = ["one", "np_float64", "bytes", "frozenset", "inf", "opaque"]
+X_LEAVES_ALL = ["one", "tuple", "date", "np_int64", "np_float64", "bytes", "frozenset", "nan", "inf", "opaque", "object"]
+
+
+def mergex_cases(quick):
+    """Sub-spaces with non-JSON-native leaves (string keys) and with non-string keys (plain leaves)."""
+    cases, info = [], []
+
+    def add(sub, us, ds):
+        U = R.named_space(us["depth"], us["keys"], us["leaves"])
+        nd = len(R.named_space(ds["depth"], ds["keys"], ds["leaves"]))
+        info.append({"sub": sub, "user_space": us, "users": len(U), "default_space": ds, "defaults": nd})
+        for i, u in enumerate(U):
+            cases.append({"kind": "mergex", "sub": sub, "uspace": us, "dspace": ds, "ui": i, "desc": R.show(u)})
+
+    ab = ["a", "b"]
+    # (1) leaves: both sides carry non-native leaves
+    add("leaves", {"depth": 2, "keys": ab, "leaves": X_LEAVES_A}, {"depth": 2, "keys": ab, "leaves": ["one", "tuple9"]})
+    add("leaves", {"depth": 2, "keys": ab, "leaves": X_LEAVES_B}, {"depth": 2, "keys": ab, "leaves": ["date2", "nan"]})
+    if not quick:
+        add("leaves", {"depth": 2, "keys": ab, "leaves": X_LEAVES_ALL}, {"depth": 2, "keys": ab, "leaves": ["one", "tuple9"]})
+    # (2) keys: non-string keys at depth 1 and 2 on both sides / user side only / default side only
+    small, full = (["one"], ["one", "two"]) if quick else (["one", "two"], ["one", "two"])
+    for kp in R.key_pairs():
+        add("keys-both", {"depth": 2, "keys": kp, "leaves": full}, {"depth": 2, "keys": kp, "leaves": small})
+        add("keys-user-only", {"depth": 2, "keys": kp, "leaves": full}, {"depth": 2, "keys": ab, "leaves": small})
+        add("keys-default-only", {"depth": 2, "keys": ab, "leaves": small}, {"depth": 2, "keys": kp, "leaves": full})
+    # 1 and True are one dictionary key: user True / default 1 and the reverse
+    add("keys-both", {"depth": 2, "keys": ["#True", "#2"], "leaves": full}, {"depth": 2, "keys": ["#1", "#2"], "leaves": small})
+    add("keys-both", {"depth": 2, "keys": ["#1", "#2"], "leaves": full}, {"depth": 2, "keys": ["#True", "#2"], "leaves": small})
+    return cases, info
+
+
+def annotated_cases():
+    return [{"kind": "annotated", "file": rel, "ann": ann, "where": where}
+            for rel in R.SHIPPED_REL for ann in ANNOTATIONS for where in ANN_WHERE]
+
+
 def _tally(ctx, results, inputs_key, note):
     tot = Counter()
     for r in results:
@@ -676,7 +837,14 @@ def explore(ctx):
         "{a,b} with the given leaf values and nesting depth <= k, empty dictionaries included: both tiers "
         "D({1,2,null,0,false,'',[]},2) x D({1,null},2) = 5184 x 144; thorough adds the same users x D({1,2,null},2) "
         "= 5184 x 400, D({1,2},3) x D({1,2},2) and D({1,null},3) x D({1,null},2) = 21609 x 144 each; null is an ordinary leaf value; one case = one user dict "
-        "against all defaults of its space. apply: apply_default_config on sub-dictionaries (subsets of "
+        "against all defaults of its space. merge-non-json-native: the same product construction over (1) leaves that "
+        "JSON cannot spell - tuple, datetime.date, numpy.int64/float64, bytes, frozenset, nan, inf, a value object, a bare "
+        "object() - on both sides (two 6-leaf user spaces of 3136 x 144 defaults; thorough adds all 11 leaves, 24336 x "
+        "144) and (2) non-string keys: every 2-key set over {a,1,2,(1,2),None,True} (14 sets, 1/True never together) at "
+        "depth 1 and 2, on both sides, on the user side only and on the default side only, plus user True against "
+        "default 1 and the reverse. apply-annotated-files: each shipped file x 8 annotations (unquoted date, timestamp, "
+        "integer-keyed block, integer key, scripted tuple / numpy int / numpy float / date inside a list) x 4 levels "
+        "through read_config -> apply_default_config. apply: apply_default_config on sub-dictionaries (subsets of "
         "leaf paths) of each shipped settings file in three value variants (as shipped / every leaf changed to differ "
         "from the default / every leaf falsy) on a bounded set in both tiers (power set of elast leaves, <=3 kept or <=3 "
         "removed of elast+qha.settings leaves, x {none, all} of the other leaves); thorough adds the full power set of "
@@ -696,6 +864,11 @@ def explore(ctx):
         "a user sub-dictionary without any leaf specifies nothing: default leaves below it are taken (asserted); "
         "whether a leafless key survives in the result is not asserted, and a leafless user dict exactly on a default "
         "leaf may yield either the default leaf or the user's leafless dict (not asserted; an exception is a violation)",
+        "every non-dict value is an opaque leaf; leaf equality = same object, or same type and == (NaN equals NaN, tuple "
+        "is not list, numpy.int64(3) is not 3); a bare object() has no value semantics, so the result must hold that very "
+        "object; dictionary keys must keep their value and type (1 and True are one key for Python: either accepted)",
+        "annotated files must validate where a shipped file or the docs show that extra keys are allowed (directly under "
+        "qha, under output); at the root and under qha.settings the validation verdict is recorded, not asserted",
         "result/input aliasing is not asserted (the statement only requires that the call leaves its inputs unmodified)",
         "validation verdict table transcribed from the statement and docs/usage/input.rst; numeric ranges: counts >= 1, "
         "T_MIN >= 0 K, volume_ratio >= 1, EoS order >= 2, interpolation order >= 1",
@@ -718,12 +891,22 @@ def explore(ctx):
     res = ctx.run(MOD, "run_case", mcases, part="merge", states=0, transitions=0)
     _tally(ctx, res, "pairs", "merge_counts")
 
+    xcases, xinfo = mergex_cases(ctx.quick)
+    res = ctx.run(MOD, "run_case", xcases, part="merge-non-json-native", states=0, transitions=0)
+    _tally(ctx, res, "pairs", "mergex_counts")
+
     acases, ainfo = apply_cases(ctx.quick)
     ccases, npaths = conflict_cases()
     res = ctx.run(MOD, "run_case", acases, part="apply-subdictionaries", states=0, transitions=0, chunksize=1)
     _tally(ctx, res, "inputs", "apply_counts")
     res = ctx.run(MOD, "run_case", ccases, part="apply-type-conflicts", states=0, transitions=0, chunksize=1)
     _tally(ctx, res, "inputs", "apply_conflict_counts")
+
+    ncases = annotated_cases()
+    res = ctx.run(MOD, "run_case", ncases, part="apply-annotated-files", states=0, transitions=0)
+    ctx.states += len(ncases)
+    ctx.transitions += sum(r.get("calls", 0) for r in res)
+    ctx.notes["annotated_outcomes"] = dict(Counter(str(r.get("outcome")) for r in res))
 
     vcases, perts = validate_cases()
     res = ctx.run(MOD, "run_case", vcases, part="validate", transitions=3 * len(vcases))
@@ -748,7 +931,8 @@ def explore(ctx):
     ctx.transitions += sum(r.get("calls", 0) for r in res)
 
     ctx.notes["alphabets"] = {
-        "merge_spaces": minfo,
+        "merge_spaces": minfo, "mergex_spaces": xinfo, "annotated_files": len(ncases),
+        "annotations": ANNOTATIONS, "annotation_levels": list(ANN_WHERE),
         "apply_files": ainfo, "apply_variants": 4, "apply_conflict_paths": npaths,
         "apply_conflict_values": len(CONFLICT_VALUES),
         "validate_bases": len(R.SHIPPED_REL), "validate_fields": len(R.FIELDS), "validate_perturbations": len(perts),
@@ -831,6 +1015,40 @@ def selftest():
     chk(R.compare({"a": {}}, {"a": {}}, {"a": {"b": 1}})[0] != [], "defaults below a leafless user dict must be taken")
     chk(not R.same({"a": 1}, {"a": 1.0}) and not R.same({"a": 1}, {"a": True}) and R.same({"a": [1, {"b": 2}]}, {"a": [1, {"b": 2}]}),
         "typed equality")
+    # non-JSON-native leaves and non-string keys
+    import copy
+    ex = R.exotic_leaves()
+    chk(len(R.key_pairs()) == 14 and all(set(kp) != {"#1", "#True"} for kp in R.key_pairs()), "key pairs")
+    chk(len(R.named_space(2, ["a", "b"], X_LEAVES_A)) == 3136 and len(R.named_space(2, ["#1", "#(1,2)"], ["one", "two"])) == 144,
+        "named space sizes")
+    chk(set(X_LEAVES_A) | set(X_LEAVES_B) == set(X_LEAVES_ALL) and len(X_LEAVES_ALL) == 11, "exotic leaf alphabets")
+    for n, v in ex.items():
+        chk(R.same(v, v) and R.same({"a": v}, {"a": v}), f"same({n}) reflexive")
+        if n != "object":
+            chk(R.same(v, copy.deepcopy(v)), f"an equal copy of {n} must be accepted")
+    chk(not R.same(ex["object"], R.Bare()) and not R.same(ex["object"], copy.deepcopy(ex["object"])), "a different bare object is not the same value")
+    chk(R.same(float("nan"), float("nan")) and not R.same(float("nan"), 1.0), "NaN equals NaN only")
+    chk(not R.same((1, 2), [1, 2]) and not R.same(ex["np_int64"], 3) and not R.same(ex["np_float64"], 2.5)
+        and not R.same(ex["date"], "2024-05-01") and not R.same(ex["date"], ex["datetime"]) and not R.same(b"x", "x"),
+        "typed leaf equality")
+    chk(not R.same({1: "x"}, {"1": "x"}) and R.same({1: "x"}, {True: "x"}) and not R.same({1: "x"}, {1.0: "x"})
+        and not R.same({(1, 2): 1}, {"(1, 2)": 1}) and not R.same({None: 1}, {"null": 1}) and R.same({None: 1, (1, 2): {2: 3}}, {(1, 2): {2: 3}, None: 1}),
+        "typed key equality")
+    xhand = [
+        ({"a": ex["tuple"]}, {"a": [1, 2], "b": ex["date"]}, {"a": ex["tuple"], "b": ex["date"]}),
+        ({1: {2: "u"}}, {1: {2: "d", (1, 2): "d"}, None: 0}, {1: {2: "u", (1, 2): "d"}, None: 0}),
+        ({True: "u"}, {1: "d", 2: "d"}, {1: "u", 2: "d"}),
+        ({"a": ex["object"]}, {"a": {"b": ex["nan"]}}, {"a": ex["object"]}),
+        ({"a": {"b": ex["nan"]}}, {"a": {"b": 1.0, "c": ex["bytes"]}}, {"a": {"b": ex["nan"], "c": ex["bytes"]}}),
+    ]
+    for u, d, exd in xhand:
+        chk(R.same(R.ref_merge(u, d), exd), f"ref_merge({u},{d}) = {R.ref_merge(u, d)} != {exd}")
+        chk(R.compare(exd, u, d)[0] == [], f"compare rejects the expected result for {u},{d}")
+    chk([k for k, _, _ in R.compare({"a": [1, 2]}, {"a": (1, 2)}, {})[0]] == ["user-leaf-lost"], "tuple turned into a list")
+    chk(sorted(k for k, _, _ in R.compare({"a": {"1": "x"}}, {"a": {1: "x"}}, {})[0]) == ["extra-key", "user-leaf-lost"],
+        "integer key turned into a string")
+    chk([k for k, _, _ in R.compare({"a": R.Bare()}, {"a": ex["object"]}, {})[0]] == ["user-leaf-lost"], "bare object replaced")
+    chk([k for k, _, _ in R.compare({"a": 3}, {}, {"a": ex["np_int64"]})[0]] == ["default-leaf-missing"], "numpy default leaf retyped")
     n_plain = 0
     for u in D2:
         ul, ue = R.flatten(u)
